@@ -8,7 +8,9 @@ token dump `docTokens` (the format `E57/Drv/Reader.lean` `parseTree` reads).
 B. ROUND TRIP ON TREES (sections 0–10):  `X.fromNode (X.tree x) = some x`
    hypotheses, all of the same three kinds and nothing else:
    * `F64OK ft fp v` / `F32OK ft fp v` — the external float printer and parser invert each other on `v`
-     (`F64OK_inj`, `nan_payload_lost`: a NaN with a non-canonical payload is exactly what this excludes);
+     (`F64OK_inj`, `nan_payload_lost`: a NaN with a non-canonical payload is exactly what this excludes) and the
+     printed text has no white space around it (the reader `trim`s the text of numeric elements, not attributes;
+     a property of the printer alone, implied by `XmlP.FloatTextSafe ft`: `XmlP.F64OK_of_safe`);
    * `InI64 i` / `BlobOK` / `DimOK` — the number fits the Rust integer type (i64, u64, u32);
      `parseI64_toString`, `parseU64_toString`, `parseU32_toString_int` are proved (section 0);
    * `ExtsOk exts` — the invariant of the writer's extension list (URLs non-empty, not the E57 namespace,
@@ -18,6 +20,8 @@ B. ROUND TRIP ON TREES (sections 0–10):  `X.fromNode (X.tree x) = some x`
    leaves:      `optString_of_find`/`genString_roundtrip` (EVERY string, empty included: `some ""`),
                 `optF64_of_find`, `optI64_of_find`, `DateTime.roundtrip` (both values of
                 isAtomicClockReferenced), `Transform.roundtrip`
+   trim:        `rustTrim_toString_int`, `rustTrim_pad` (section 0a); `trim_invisible` (section 2a): white space
+                added around the text of a numeric leaf does not change what is read (`string_not_trimmed`)
    bounds:      `CartesianBounds.roundtrip`, `SphericalBounds.roundtrip`, `IndexBounds.roundtrip`
    limits:      `IntensityLimits.roundtrip`, `ColorLimits.roundtrip` (every present/absent combination, the kind
                 Integer/ScaledInteger/single/double is kept)
@@ -127,11 +131,102 @@ theorem parseI64_toString (i : Int) (h : InI64 i) : parseI64 (toString i) = some
     rw [this]
     simp [hv]; omega
 
+/-! ## 0a. `trim`: white space around a number is not part of the number
+
+`opt_num` (xml.rs), `DateTime::from_node` and `extract_limit` `trim()` the text of a numeric leaf before parsing it.
+What the writer prints has no white space around it (`rustTrim_toString_int`, and the second half of `F64OK`), so the
+round trips are unaffected; white space ADDED around the text of a leaf is invisible (`rustTrim_pad`,
+`trim_invisible_*` in section 2a). -/
+
+theorem dropWhile_none {α} (p : α → Bool) (l : List α) (h : ∀ c ∈ l, p c = false) : l.dropWhile p = l := by
+  cases l with
+  | nil => rfl
+  | cons c cs => simp [h c (by simp)]
+
+/-- a text without white space (Rust `char::is_whitespace`) is its own `trim` -/
+theorem rustTrim_of_noWs (s : String) (h : ∀ c ∈ s.toList, rustIsWhitespace c = false) : rustTrim s = s := by
+  unfold rustTrim
+  rw [dropWhile_none _ _ h, dropWhile_none _ _ (by simpa using h)]
+  simp [String.ofList_toList]
+
+theorem isDigit_noWs {c : Char} (h : c.isDigit = true) : rustIsWhitespace c = false := by
+  simp only [Char.isDigit, Bool.and_eq_true, decide_eq_true_eq] at h
+  have h1 : 48 ≤ c.toNat := by have := h.1; exact this
+  have h2 : c.toNat ≤ 57 := by have := h.2; exact this
+  simp [rustIsWhitespace]
+  omega
+
+theorem rustTrim_toString_nat (n : Nat) : rustTrim (toString n) = toString n := by
+  apply rustTrim_of_noWs
+  intro c hc
+  rw [Nat.toString_eq_repr, Nat.toList_repr] at hc
+  exact isDigit_noWs (Nat.isDigit_of_mem_toDigits (by decide) (by decide) hc)
+
+/-- what the writer prints for an integer (digits, possibly after `-`) has no white space around it -/
+theorem rustTrim_toString_int (i : Int) : rustTrim (toString i) = toString i := by
+  apply rustTrim_of_noWs
+  intro c hc
+  rw [Int.toString_eq_repr, Int.repr_eq_if] at hc
+  split at hc
+  · rw [Nat.toList_repr] at hc
+    exact isDigit_noWs (Nat.isDigit_of_mem_toDigits (by decide) (by decide) hc)
+  · simp only [String.toList_append, Nat.toList_repr, List.mem_append] at hc
+    rcases hc with hc | hc
+    · have : c = '-' := by simpa using hc
+      subst this; decide
+    · exact isDigit_noWs (Nat.isDigit_of_mem_toDigits (by decide) (by decide) hc)
+
+theorem rustTrim_repr_int (i : Int) : rustTrim i.repr = i.repr := rustTrim_toString_int i
+
+/-- white space only (Rust `char::is_whitespace`; space, tab, LF, CR are: `AllWs_xmlSpace`) -/
+def AllWs (s : String) : Prop := ∀ c ∈ s.toList, rustIsWhitespace c = true
+
+instance (s : String) : Decidable (AllWs s) := by unfold AllWs; exact inferInstance
+
+/-- the four white space characters of XML (`S ::= (#x20 | #x9 | #xD | #xA)+`) are white space for Rust -/
+theorem AllWs_xmlSpace (s : String) (h : ∀ c ∈ s.toList, c = ' ' ∨ c = '\t' ∨ c = '\n' ∨ c = '\r') : AllWs s := by
+  intro c hc
+  rcases h c hc with rfl | rfl | rfl | rfl <;> decide
+
+/-- KEY LEMMA: white space added in front of and behind a text does not change its `trim` -/
+theorem rustTrim_pad (w1 s w2 : String) (h1 : AllWs w1) (h2 : AllWs w2) :
+    rustTrim (w1 ++ s ++ w2) = rustTrim s := by
+  unfold rustTrim
+  simp only [String.toList_append, List.append_assoc]
+  rw [List.dropWhile_append_of_pos h1, List.dropWhile_append]
+  split
+  · rename_i he
+    have he' : s.toList.dropWhile rustIsWhitespace = [] := by simpa using he
+    have : w2.toList.dropWhile rustIsWhitespace = [] := by
+      have := List.dropWhile_append_of_pos (p := rustIsWhitespace) (l₁ := w2.toList) (l₂ := []) h2
+      simpa using this
+    rw [this, he']
+  · rw [List.reverse_append, List.dropWhile_append_of_pos (by intro c hc; exact h2 c (by simpa using hc))]
+
+/-- `trim` is idempotent on what it is applied to here: a padded number trims to the number -/
+theorem rustTrim_pad_of_noWs (w1 s w2 : String) (h1 : AllWs w1) (h2 : AllWs w2)
+    (hs : ∀ c ∈ s.toList, rustIsWhitespace c = false) : rustTrim (w1 ++ s ++ w2) = s := by
+  rw [rustTrim_pad w1 s w2 h1 h2, rustTrim_of_noWs s hs]
+
 /-! ## 1. queries on the trees -/
 
-/-- the external float printer and parser invert each other on this bit pattern -/
-def F64OK (ft : FloatText) (fp : FloatParse) (v : UInt64) : Prop := fp.f64 (ft.show64 v) = some v
-def F32OK (ft : FloatText) (fp : FloatParse) (v : UInt32) : Prop := fp.f32 (ft.show32 v) = some v
+/-- the external float printer and parser invert each other on this bit pattern, and the printed text has no
+    white space around it (the reader `trim`s the text of a numeric element before parsing it; attributes are
+    parsed untrimmed: hence both halves.  The second half is a property of the printer alone and follows from
+    `XmlP.FloatTextSafe ft`: `XmlP.F64OK_of_safe`) -/
+def F64OK (ft : FloatText) (fp : FloatParse) (v : UInt64) : Prop :=
+  fp.f64 (ft.show64 v) = some v ∧ rustTrim (ft.show64 v) = ft.show64 v
+def F32OK (ft : FloatText) (fp : FloatParse) (v : UInt32) : Prop :=
+  fp.f32 (ft.show32 v) = some v ∧ rustTrim (ft.show32 v) = ft.show32 v
+
+theorem F64OK.parse {ft fp v} (h : F64OK ft fp v) : fp.f64 (ft.show64 v) = some v := h.1
+theorem F64OK.trim {ft fp v} (h : F64OK ft fp v) : rustTrim (ft.show64 v) = ft.show64 v := h.2
+theorem F64OK.parse_trim {ft fp v} (h : F64OK ft fp v) : fp.f64 (rustTrim (ft.show64 v)) = some v := by
+  rw [h.2]; exact h.1
+theorem F32OK.parse {ft fp v} (h : F32OK ft fp v) : fp.f32 (ft.show32 v) = some v := h.1
+theorem F32OK.trim {ft fp v} (h : F32OK ft fp v) : rustTrim (ft.show32 v) = ft.show32 v := h.2
+theorem F32OK.parse_trim {ft fp v} (h : F32OK ft fp v) : fp.f32 (rustTrim (ft.show32 v)) = some v := by
+  rw [h.2]; exact h.1
 
 instance (ft fp v) : Decidable (F64OK ft fp v) := by unfold F64OK; exact inferInstance
 instance (ft fp v) : Decidable (F32OK ft fp v) := by unfold F32OK; exact inferInstance
@@ -205,8 +300,7 @@ theorem optF64_of_find {ft fp p0} {n : XNode} {t t' : String} {o : Option UInt64
   cases o with
   | none => simp [optF64, typedChild_none h]
   | some v =>
-    have := hok v rfl
-    unfold F64OK at this
+    have := (hok v rfl).parse_trim
     simp [optF64, typedChild_some h (ty := "Float") (by simp [genFloatTree]), genFloatTree, this]
 
 /-- find the child with a given tag in a list built from `optT` pieces -/
@@ -266,7 +360,7 @@ theorem optI64_of_find {p0} {n : XNode} {t t' : String} {o : Option Int}
   | none => simp [optI64, typedChild_none h]
   | some v =>
     simp [optI64, typedChild_some h (ty := "Integer") (by simp [genIntTree]), genIntTree,
-      parseI64_repr v (hok v rfl)]
+      rustTrim_repr_int, parseI64_repr v (hok v rfl)]
 
 theorem reqF64_of_find {ft fp p0} {n : XNode} {t t' : String} {v : UInt64}
     (h : n.findChild t = some (genFloatTree ft p0 t' v)) (hok : F64OK ft fp v) : reqF64 fp n t = some v := by
@@ -275,7 +369,147 @@ theorem reqF64_of_find {ft fp p0} {n : XNode} {t t' : String} {v : UInt64}
 theorem reqU32_of_find {p0} {n : XNode} {t t' : String} {v : Nat}
     (h : n.findChild t = some (genIntTree p0 t' (v : Int))) (hok : v ≤ 4294967295) : reqU32 n t = some v := by
   simp [reqU32, typedChild_some h (ty := "Integer") (by simp [genIntTree]), genIntTree,
-      parseU32_repr_int v hok]
+      rustTrim_repr_int, parseU32_repr_int v hok]
+
+/-! ## 2a. `trim_invisible`: white space added around the text of a numeric leaf is not seen -/
+
+/-- `c'` is the leaf `c` with white space (only) added around its text: same name, same attributes -/
+structure Padded (c c' : XNode) : Prop where
+  tag : ∀ t, c'.hasTagName t = c.hasTagName t
+  attrs : ∀ a, c'.attr a = c.attr a
+  text : ∃ w1 s w2, AllWs w1 ∧ AllWs w2 ∧ c.textOf = some s ∧ c'.textOf = some (w1 ++ s ++ w2)
+
+/-- the writer's shape of a leaf (one text child), padded -/
+theorem Padded_leaf (ns p name attrs) (w1 s w2 : String) (h1 : AllWs w1) (h2 : AllWs w2) :
+    Padded (.elem ns p name attrs [.text s]) (.elem ns p name attrs [.text (w1 ++ s ++ w2)]) :=
+  ⟨fun _ => rfl, fun _ => rfl, w1, s, w2, h1, h2, rfl, rfl⟩
+
+/-- the text the reader parses is the same -/
+theorem Padded.trim_text {c c' : XNode} (h : Padded c c') (d : String) :
+    rustTrim ((c'.textOf).getD d) = rustTrim ((c.textOf).getD d) := by
+  obtain ⟨w1, s, w2, h1, h2, e, e'⟩ := h.text
+  simp [e, e', rustTrim_pad w1 s w2 h1 h2]
+
+/-- two lookups give the same node, or a leaf and the same leaf padded -/
+def FoundPadded (o o' : Option XNode) : Prop := o' = o ∨ ∃ c c', o = some c ∧ o' = some c' ∧ Padded c c'
+
+/-- replacing ONE child by its padded version: every lookup `find?` by a predicate that does not look at the text -/
+theorem find?_padded (q : XNode → Bool) {c c' : XNode} (hp : Padded c c') (hq : q c' = q c) (pre post : List XNode) :
+    FoundPadded ((pre ++ c :: post).find? q) ((pre ++ c' :: post).find? q) := by
+  simp only [List.find?_append, List.find?_cons, hq]
+  cases pre.find? q with
+  | some x => exact Or.inl rfl
+  | none =>
+    cases hc : q c with
+    | false => exact Or.inl rfl
+    | true => exact Or.inr ⟨c, c', by simp, by simp, hp⟩
+
+theorem findChild_padded (ns p name attrs) {c c' : XNode} (hp : Padded c c') (pre post : List XNode) (tag : String) :
+    FoundPadded ((XNode.elem ns p name attrs (pre ++ c :: post)).findChild tag)
+      ((XNode.elem ns p name attrs (pre ++ c' :: post)).findChild tag) :=
+  find?_padded _ hp (hp.tag tag) pre post
+
+/-- **trim_invisible** for every number read through `opt_num`: Float -/
+theorem trim_invisible_optF64 (fp : FloatParse) {n n' : XNode} {tag : String}
+    (h : FoundPadded (n.findChild tag) (n'.findChild tag)) : optF64 fp n' tag = optF64 fp n tag := by
+  rcases h with h | ⟨c, c', hc, hc', hp⟩
+  · simp [optF64, typedChild, h]
+  · simp only [optF64, typedChild, hc, hc', hp.attrs]
+    cases c.attr "type" with
+    | none => rfl
+    | some ty => by_cases e : (ty == "Float") = true <;> simp [e, hp.trim_text]
+
+theorem trim_invisible_optI64 {n n' : XNode} {tag : String}
+    (h : FoundPadded (n.findChild tag) (n'.findChild tag)) : optI64 n' tag = optI64 n tag := by
+  rcases h with h | ⟨c, c', hc, hc', hp⟩
+  · simp [optI64, typedChild, h]
+  · simp only [optI64, typedChild, hc, hc', hp.attrs]
+    cases c.attr "type" with
+    | none => rfl
+    | some ty => by_cases e : (ty == "Integer") = true <;> simp [e, hp.trim_text]
+
+theorem trim_invisible_reqU32 {n n' : XNode} {tag : String}
+    (h : FoundPadded (n.findChild tag) (n'.findChild tag)) : reqU32 n' tag = reqU32 n tag := by
+  rcases h with h | ⟨c, c', hc, hc', hp⟩
+  · simp [reqU32, typedChild, h]
+  · simp only [reqU32, typedChild, hc, hc', hp.attrs]
+    cases c.attr "type" with
+    | none => rfl
+    | some ty => by_cases e : (ty == "Integer") = true <;> simp [e, hp.trim_text]
+
+theorem trim_invisible_reqF64 (fp : FloatParse) {n n' : XNode} {tag : String}
+    (h : FoundPadded (n.findChild tag) (n'.findChild tag)) : reqF64 fp n' tag = reqF64 fp n tag := by
+  simp [reqF64, trim_invisible_optF64 fp h]
+
+theorem trim_invisible_reqI64 {n n' : XNode} {tag : String}
+    (h : FoundPadded (n.findChild tag) (n'.findChild tag)) : reqI64 n' tag = reqI64 n tag := by
+  simp [reqI64, trim_invisible_optI64 h]
+
+/-- … for the limits (`extract_limit` looks among all descendants) -/
+theorem trim_invisible_extractLimit (fp : FloatParse) {n n' : XNode} {tag : String}
+    (h : FoundPadded (n.findDescendant tag) (n'.findDescendant tag)) :
+    extractLimit fp n' tag = extractLimit fp n tag := by
+  rcases h with h | ⟨c, c', hc, hc', hp⟩
+  · simp [extractLimit, h]
+  · simp only [extractLimit, hc, hc', hp.attrs, hp.trim_text]
+
+/-- … for date and time: white space around `dateTimeValue` and around `isAtomicClockReferenced` -/
+theorem trim_invisible_dateTime (fp : FloatParse) (ns p name attrs) {c c' : XNode} (hp : Padded c c')
+    (pre post : List XNode) :
+    E57.DateTime.fromNode fp (.elem ns p name attrs (pre ++ c' :: post))
+      = E57.DateTime.fromNode fp (.elem ns p name attrs (pre ++ c :: post)) := by
+  have q1 := find?_padded (fun n => n.hasTagName "dateTimeValue" && n.attr "type" == some "Float") hp
+    (by simp [hp.tag, hp.attrs]) pre post
+  have q2 := find?_padded (fun n => n.hasTagName "isAtomicClockReferenced" && n.attr "type" == some "Integer") hp
+    (by simp [hp.tag, hp.attrs]) pre post
+  simp only [E57.DateTime.fromNode, XNode.children]
+  revert q1 q2
+  generalize (pre ++ c :: post).find? (fun n => n.hasTagName "dateTimeValue" && n.attr "type" == some "Float") = o1
+  generalize (pre ++ c' :: post).find? (fun n => n.hasTagName "dateTimeValue" && n.attr "type" == some "Float") = o1'
+  generalize (pre ++ c :: post).find?
+    (fun n => n.hasTagName "isAtomicClockReferenced" && n.attr "type" == some "Integer") = o2
+  generalize (pre ++ c' :: post).find?
+    (fun n => n.hasTagName "isAtomicClockReferenced" && n.attr "type" == some "Integer") = o2'
+  intro q1 q2
+  rcases q2 with h2 | ⟨d2, d2', hd2, hd2', hp2⟩ <;> rcases q1 with h1 | ⟨d1, d1', hd1, hd1', hp1⟩
+  · rw [h1, h2]
+  · obtain ⟨w1, s, w2, hw1, hw2, e, e'⟩ := hp1.text
+    simp only [h2, hd1, hd1', Option.bind_eq_bind, Option.bind_some, e, e', rustTrim_pad w1 s w2 hw1 hw2]
+  · rw [h1, hd2, hd2']
+    simp only [hp2.trim_text]
+  · obtain ⟨w1, s, w2, hw1, hw2, e, e'⟩ := hp1.text
+    simp only [hd2, hd2', hd1, hd1', Option.bind_eq_bind, Option.bind_some, e, e', rustTrim_pad w1 s w2 hw1 hw2,
+      hp2.trim_text]
+
+/-- non-vacuity, the example of the defect report: `<temperature type="Float"> 21.5 </temperature>` (and with
+    tab, CR, LF) is read as 21.5 -/
+theorem trim_invisible_example :
+    let fp : FloatParse := ⟨[("21.5", (some 0x4035800000000000, none))]⟩
+    optF64 fp (structT none "x" [el none "temperature" [tattr "Float"] [.text " \t21.5\r\n "]]) "temperature"
+      = some (some 0x4035800000000000) ∧
+    optF64 fp (structT none "x" [el none "temperature" [tattr "Float"] [.text "21.5"]]) "temperature"
+      = some (some 0x4035800000000000) := by
+  decide
+
+/-- **trim_invisible**: in any element, replace one leaf by the same leaf with white space (space, tab, LF, CR, … —
+    `AllWs`, `AllWs_xmlSpace`) around its text: every number read from that element (`opt_num::<f64>`,
+    `opt_num::<i64>`, the required `u32`, date and time) is the same.  With `Padded_leaf` for the writer's shape
+    of a leaf; for the limits see `trim_invisible_extractLimit`. -/
+theorem trim_invisible (fp : FloatParse) (ns p name attrs) {c c' : XNode} (hp : Padded c c')
+    (pre post : List XNode) (tag : String) :
+    let n := XNode.elem ns p name attrs (pre ++ c :: post)
+    let n' := XNode.elem ns p name attrs (pre ++ c' :: post)
+    optF64 fp n' tag = optF64 fp n tag ∧ optI64 n' tag = optI64 n tag ∧ reqU32 n' tag = reqU32 n tag ∧
+    reqF64 fp n' tag = reqF64 fp n tag ∧ reqI64 n' tag = reqI64 n tag ∧
+    E57.DateTime.fromNode fp n' = E57.DateTime.fromNode fp n := by
+  have h := findChild_padded ns p name attrs hp pre post tag
+  exact ⟨trim_invisible_optF64 fp h, trim_invisible_optI64 h, trim_invisible_reqU32 h, trim_invisible_reqF64 fp h,
+    trim_invisible_reqI64 h, trim_invisible_dateTime fp ns p name attrs hp pre post⟩
+
+/-- strings are NOT trimmed: the white space stays in the value -/
+theorem string_not_trimmed :
+    optString (structT none "x" [el none "name" [tattr "String"] [.text " a "]]) "name" = some (some " a ") := by
+  decide
 
 /-! ## 3. bounds, date and time, pose -/
 
@@ -326,7 +560,7 @@ theorem IndexBounds.roundtrip_needs_i64 :
 /-- date and time: both values of `isAtomicClockReferenced` survive -/
 theorem DateTime.roundtrip (ft fp p0) (d : DateTime) (tag : String) (h : F64OK ft fp d.gpsTime) :
     E57.DateTime.fromNode fp (DateTime.tree ft p0 d tag) = some (some d) := by
-  unfold F64OK at h
+  have h := h.parse_trim
   have h1 : parseI64 (rustTrim "1") = some 1 := by decide
   have h0 : parseI64 (rustTrim "0") = some 0 := by decide
   obtain ⟨g, a⟩ := d
@@ -433,13 +667,13 @@ theorem extractLimit_of_find {ft fp p0} {n : XNode} {t t' : String} {o : Option 
     have hv := hok v rfl
     have h' : n.findDescendant t = some (recordValueTree ft p0 t' v) := h
     cases v with
-    | integer i => simp [extractLimit, h', recordValueTree, el, attr, textOf, XNode.children, textPieces, tattr, at_, parseI64_repr i hv]
-    | scaled i => simp [extractLimit, h', recordValueTree, el, attr, textOf, XNode.children, textPieces, tattr, at_, parseI64_repr i hv]
+    | integer i => simp [extractLimit, h', recordValueTree, el, attr, textOf, XNode.children, textPieces, tattr, at_, rustTrim_repr_int, parseI64_repr i hv]
+    | scaled i => simp [extractLimit, h', recordValueTree, el, attr, textOf, XNode.children, textPieces, tattr, at_, rustTrim_repr_int, parseI64_repr i hv]
     | single b =>
-      simp only [ValueOK, F32OK] at hv
+      have hv := F32OK.parse_trim hv
       simp [extractLimit, h', recordValueTree, el, attr, textOf, XNode.children, textPieces, tattr, at_, hv]
     | double b =>
-      simp only [ValueOK, F64OK] at hv
+      have hv := F64OK.parse_trim hv
       simp [extractLimit, h', recordValueTree, el, attr, textOf, XNode.children, textPieces, tattr, at_, hv]
 
 def IntensityLimits.values (l : IntensityLimits) : List (Option Value) := [l.min, l.max]
@@ -505,7 +739,7 @@ theorem IntensityLimits.roundtrip_needs_i64 (ft fp) :
       = none := by
   simp [E57.IntensityLimits.fromNode, IntensityLimits.tree, extractLimit, findDescendant, structT, el, lines, sep, optT,
     descendants, descendantsList, recordValueTree, nl, hasTagName, attr, tattr, at_, textOf, XNode.children, textPieces,
-    show parseI64 (Int.repr 9223372036854775808) = none by decide +kernel]
+    rustTrim_repr_int, show parseI64 (Int.repr 9223372036854775808) = none by decide +kernel]
 
 /-! ## 5. prototype -/
 
@@ -2185,8 +2419,8 @@ theorem document_text (ft : FloatText) (root : Root) (pcs : List PointCloud) (im
     `F64OK` singles out exactly the values on which printing loses nothing -/
 theorem F64OK_inj {ft fp} {v w : UInt64} (hv : F64OK ft fp v) (hw : F64OK ft fp w)
     (h : ft.show64 v = ft.show64 w) : v = w := by
-  unfold F64OK at hv hw
-  rw [h, hw] at hv
+  have hv := hv.parse
+  rw [h, hw.parse] at hv
   exact (Option.some.inj hv).symm
 
 /-- Rust prints every NaN as `NaN` and parses `NaN` to the canonical quiet NaN: with such a printer and
